@@ -1,1 +1,1 @@
-from . import strings, regex  # noqa
+from . import strings, regex, dt, dec  # noqa
